@@ -1123,8 +1123,21 @@ def e2e(rep, d, cases, label, seed):
 
 # ====================================================================== run
 def _tlc_job(args):
+    """run one TLC job; a big model-only job that does not finish within its timeout (machine
+    under load) falls back to random simulation of the same model (DESIGN 2.2)."""
     spec, cfg, kw = args
-    return tlc.run_tlc(spec, cfg, **kw)
+    kw = dict(kw)
+    fallback = kw.pop("fallback_simulate", None)
+    try:
+        return tlc.run_tlc(spec, cfg, **kw)
+    except tlc.TLCMachineryError as ex:
+        if fallback is None or "timed out" not in str(ex):
+            raise
+        res = tlc.run_tlc(spec, cfg, workers=kw.get("workers", 8), heap=kw.get("heap", "4g"),
+                          simulate=f"num={fallback}", depth=24, seed=_SEED, timeout=900)
+        res.cmd += "   # exhaustive run timed out, simulation instead"
+        res.simulated = True
+        return res
 
 
 def _t(rep, t0, what):
@@ -1166,7 +1179,8 @@ def run(rep, tier, seed):
             meta.append(("replay", kname))
         for kname in model_only:
             spec, cfg = gen_mc(d, f"MC_{kname}", K[kname])
-            jobs.append((spec, cfg, dict(workers=4 if quick else 12, coverage=True, heap="3g" if quick else "8g")))
+            jobs.append((spec, cfg, dict(workers=4 if quick else 12, coverage=True, heap="3g" if quick else "8g",
+                                         timeout=600 if quick else 1500, fallback_simulate=20000)))
             meta.append(("model", kname))
         for j in trace_jobs(rec):
             jobs.append(j)
@@ -1189,6 +1203,10 @@ def run(rep, tier, seed):
                 if res.violated:
                     rep.machinery(f"ClawRegistry.tla (intended design) violates {res.violated} for constants {name}: "
                                   f"the specification contradicts itself\n{res.output[-2000:]}")
+                if getattr(res, "simulated", False):
+                    rep.note(f"exhaustive TLC run of constants {name} did not finish in time (machine load); replaced by "
+                             f"random simulation of the same model ({res.generated} states generated)")
+                    continue
                 cov = coverage_of(res)
                 zero = [a for a in ("Pkgs", "This", "BadName", "All", "Enter", "Exit") if cov.get(a, (0, 0))[1] == 0]
                 if zero:
